@@ -19,6 +19,8 @@ ENTRIES = [
 
 def run(ctx):
     S.rule_sh1(ctx)
+    S.rule_sh2(ctx)
+    S.rule_ax1(ctx, [CORE, "geometry_tools/hyperbolic.py", PROJ])
     P.rule_s1(ctx, ops=[(PROJ, "ProjectiveObject.reshape"),
                         (PROJ, "ProjectiveObject.flatten_to_unit"),
                         (PROJ, "ProjectiveObject._construct_from_object"),
